@@ -115,7 +115,9 @@ class Ref:
             for i in range(self.n - 1):
                 out.append(self.base @ poe.poe(self.S, th, upto=i + 1) @ L[i + 1])
             full = self.base @ poe.poe(self.S, th)
-            return out, (full @ L[self.n] if len(L) == self.n + 2 else None), full @ self.M
+            # a loaded arm whose tool home coincides with its last joint reports no separate last-joint frame until the tool
+            # is moved away from it; the joint itself then sits at the original tool home
+            return out, full @ (L[self.n] if len(L) == self.n + 2 else self.M0), full @ self.M
         out = [self.base if self.fixed_offset is None else self.base @ self.fixed_offset]
         for i in range(self.n - 1):
             out.append(self.base @ poe.poe(self.S, th, upto=i + 1) @ self.J[i])
